@@ -132,6 +132,7 @@ func Decisions(calls []Call, workloadOf func(pod string) string) []decision {
 
 // CheckVictims is the C06 oracle on one cycle.
 func CheckVictims(w *World, rec *CycleRecord) ([]Finding, VictimFacts) {
+	w = rec.Effective(w)
 	var out []Finding
 	var facts VictimFacts
 	tree := w.QueueTree()
